@@ -5,7 +5,7 @@
 (* Events are the uniform records of harness/drive.py (callback interface    *)
 (* of a plain Request) and harness/observedrive.py (async iterator,          *)
 (* BlockwiseRequest):                                                        *)
-(*   submit(q, r, x = interface)                                             *)
+(*   submit(q, r, x = interface, obs = 0 iff the request asks to observe)    *)
 (*   rx(r, ty, mid, cls, code, obs, q, t)   datagram read; q # 0 iff it      *)
 (*        carries the token AND comes from the endpoint of request q;        *)
 (*        obs = Observe value, -1 if the option is absent                    *)
@@ -46,6 +46,7 @@ NewReq(r, mode) ==
    acc |-> << >>,        \* lossy: the values the RFC rule accepts, in order (-1: the final response)
    cur |-> {0},          \* lossy: positions in acc the last item handed over may have (equal values are ambiguous)
    must |-> "",          \* how the observation has to end: "notobs" | "final" | "net"
+   tok |-> "?",          \* the token its request went out with ("?": not transmitted yet)
    ends |-> 0, kind |-> "", fin |-> FALSE]
 
 ObsInit == [rq |-> << >>, win |-> NoWin, bad |-> {}]
@@ -84,10 +85,16 @@ Cause(o, q, must) ==
       o1 == [o EXCEPT !.rq[q].st = "over", !.rq[q].must = IF s.must = "" THEN must ELSE s.must]
   IN JudgeEnd(o1, q)
 
-ObsSubmit(o, e) == [o EXCEPT !.rq = Put(@, e.q, NewReq(e.r, IF e.x = "" THEN "cb" ELSE "lossy"))]
+(* obs = 0: the request registers an observation; through callbacks of a plain Request (x = "" or  *)
+(* "cb") or behind a latest-value queue.  Other requests on the same context ("plain") only matter *)
+(* for the tokens they are given.                                                                  *)
+ObsSubmit(o, e) ==
+  [o EXCEPT !.rq = Put(@, e.q, NewReq(e.r, IF e.obs # 0 THEN "plain" ELSE IF e.x \in {"", "cb"} THEN "cb" ELSE "lossy"))]
+
+IsObs(o, q) == Has(o.rq, q) /\ o.rq[q].mode # "plain"
 
 ObsRx(o, e) ==
-  IF ~(e.cls = "resp" /\ e.q # 0 /\ Has(o.rq, e.q)) THEN o
+  IF ~(e.cls = "resp" /\ e.q # 0 /\ IsObs(o, e.q)) THEN o
   ELSE
   LET q == e.q
       o0 == CloseExp(o, q)
@@ -114,8 +121,18 @@ ObsRx(o, e) ==
                                                       ELSE IF e.ty = "NON" THEN "silent" ELSE "none",
                                              !.mid = e.mid]]
 
+(* A request datagram: while an observation is waiting or running, its token belongs to it alone  *)
+(* -- no other request to that endpoint (another application request, or one the library makes    *)
+(* itself for further blocks; q = 0) may be given the same token.                                  *)
+ObsTxReq(o, e) ==
+  LET o1 == IF Has(o.rq, e.q) /\ o.rq[e.q].tok = "?" THEN [o EXCEPT !.rq[e.q].tok = e.tok] ELSE o
+      clash == \E p \in DOMAIN o.rq : /\ p # e.q /\ o.rq[p].mode # "plain" /\ o.rq[p].st \in {"wait", "live"}
+                                       /\ o.rq[p].r = e.r /\ o.rq[p].tok = e.tok
+  IN FlagIf(o1, clash, "C07_TokenExclusive")
+
 ObsTx(o, e) ==
-  IF o.win.kind # "none" /\ e.mid = o.win.mid /\ e.ty \in {"ACK", "RST"}
+  IF e.cls = "req" THEN ObsTxReq(o, e)
+  ELSE IF o.win.kind # "none" /\ e.mid = o.win.mid /\ e.ty \in {"ACK", "RST"}
     THEN [o EXCEPT !.win.ans = e.ty, !.win.n = @ + 1]
     ELSE o
 
@@ -132,7 +149,7 @@ ObsRxEnd(o, e) ==
                             THEN [@[q] EXCEPT !.exp = NoExp] ELSE @[q]]]
 
 ObsNotif(o, e) ==
-  IF ~Has(o.rq, e.q) THEN Flag(o, "C07_DeliverIffFresh/unknown")
+  IF ~IsObs(o, e.q) THEN Flag(o, "C07_DeliverIffFresh/unknown")
   ELSE
   LET q == e.q
       s == o.rq[q]
@@ -152,7 +169,7 @@ ObsNotif(o, e) ==
                ELSE [o EXCEPT !.rq[q].cur = nc, !.rq[q].fin = (@ \/ e.obs < 0)]
 
 ObsObsEnd(o, e) ==
-  IF ~Has(o.rq, e.q) THEN Flag(o, "C07_EndsOnce")
+  IF ~IsObs(o, e.q) THEN Flag(o, "C07_EndsOnce")
   ELSE
   LET q == e.q
       s == o.rq[q]
@@ -161,7 +178,7 @@ ObsObsEnd(o, e) ==
 
 (* the request failed before any response: a transport failure              *)
 ObsDone(o, e) ==
-  IF Has(o.rq, e.q) /\ o.rq[e.q].st = "wait" /\ e.cls \in {"net", "timeout"}
+  IF IsObs(o, e.q) /\ o.rq[e.q].st = "wait" /\ e.cls \in {"net", "timeout"}
     THEN Cause(o, e.q, "net")
     ELSE o
 
@@ -169,7 +186,7 @@ RECURSIVE ErrAll(_, _, _)
 ErrAll(o, qs, r) ==
   IF qs = {} THEN o
   ELSE LET q == CHOOSE x \in qs : TRUE
-           hit == o.rq[q].r = r /\ o.rq[q].st \in {"wait", "live"}
+           hit == o.rq[q].mode # "plain" /\ o.rq[q].r = r /\ o.rq[q].st \in {"wait", "live"}
        IN ErrAll(IF hit THEN Cause(CloseExp(o, q), q, "net") ELSE o, qs \ {q}, r)
 
 ObsErr(o, e) == ErrAll(o, DOMAIN o.rq, e.r)
@@ -187,7 +204,7 @@ EndAll(o, qs) ==
                         "C07_DeliverIffFresh/latest-lost")
        IN EndAll(o3, qs \ {q})
 
-ObsEnd(o, e) == EndAll(o, DOMAIN o.rq)
+ObsEnd(o, e) == EndAll(o, {q \in DOMAIN o.rq : o.rq[q].mode # "plain"})
 
 ObsEvent(o, e) ==
   CASE e.k = "submit" -> ObsSubmit(o, e)
